@@ -159,6 +159,7 @@ type SpecDB struct {
 	UFs      map[string]*UFDecl
 	Tracked  map[string]bool
 	Assumed    []string // `assumption [C18] text` directives: stated, unchecked assumptions copied into the evidence
+	CloseOnly  map[string][]string // pkg.T.field -> tags: channels that are only ever closed, never sent on
 	EnvProps   map[string]bool // properties that have envassume clauses
 	RaceStrict map[string]bool
 	SweepWrappers map[string]bool
@@ -228,7 +229,7 @@ func parseLabel(s string) (label string, tags []string, rest string) {
 	return
 }
 
-var directiveKW = map[string]bool{"assumption": true, "autotagfn": true, "globalinv": true, "uf": true, "tracked": true, "cond": true, "callers": true, "racestrict": true, "sweepwrappers": true, "rawaxiom": true, "autotag": true, "option": true, "import": true, "ghost": true, "pred": true, "inv": true, "lockinv": true, "protect": true,
+var directiveKW = map[string]bool{"closeonly": true, "assumption": true, "autotagfn": true, "globalinv": true, "uf": true, "tracked": true, "cond": true, "callers": true, "racestrict": true, "sweepwrappers": true, "rawaxiom": true, "autotag": true, "option": true, "import": true, "ghost": true, "pred": true, "inv": true, "lockinv": true, "protect": true,
 	"typeinv": true, "lockorder": true, "guards": true, "func": true, "dyn": true, "lemma": true, "mono": true, "spec": true}
 var clauseKW = map[string]bool{"requires": true, "ensures": true, "loop": true, "locks": true, "modifies": true, "inline": true,
 	"trusted": true, "entry": true, "optional": true, "blocking": true, "pure": true, "callsite": true, "captures": true, "envassume": true, "absensures": true, "absmodifies": true,
@@ -496,6 +497,19 @@ func (db *SpecDB) loadSpecFile(path string, pkgPath string, goFile bool) {
 		case "sweepwrappers":
 			for _, t := range strings.Fields(it.text) {
 				db.SweepWrappers[pkgPath+"."+t] = true
+			}
+		case "closeonly":
+			// closeonly [C12] T.field: nobody sends on the channel in this field; a receive from it succeeds iff it is closed
+			var ctags []string
+			if m := labelRe.FindStringSubmatch(strings.TrimSpace(it.text)); m != nil {
+				ctags = regexp.MustCompile(`C[0-9]{2,3}`).FindAllString(m[1], -1)
+			}
+			txt := strings.TrimSpace(labelRe.ReplaceAllString(strings.TrimSpace(it.text), ""))
+			if db.CloseOnly == nil {
+				db.CloseOnly = map[string][]string{}
+			}
+			for _, f := range strings.Fields(txt) {
+				db.CloseOnly[pkgPath+"."+f] = ctags
 			}
 		case "assumption":
 			db.Assumed = append(db.Assumed, it.text)
